@@ -138,7 +138,7 @@ def sqrt_bounds(fr, bits=110):
     return Fraction(n, 1 << bits), Fraction(n + 1, 1 << bits)
 
 
-def a_bounds(L, r, sm, t, bits=96):
+def a_bounds(L, r, sm, t, bits=64):
     N = 4 * sm * L * r * r * (2 * r * t - L * (1 + sm))
     D = abs(2 * r * t - L * (1 + 2 * sm))
     lo, hi = sqrt_bounds(N)
@@ -180,7 +180,7 @@ def eval_file_g3(p, rows):
     for nm, b in (("aIn", b1), ("aOut", b2)):
         out.append("Lemma B_%s : %s <= g3_%s s1 <= %s.\nProof. unfold s1, "
                    "g3__updateParameters; cbv zeta; fields; split; interval with "
-                   "(i_prec 130). Qed." % (nm, R(b[0]), nm, R(b[1])))
+                   "(i_prec 100). Qed." % (nm, R(b[0]), nm, R(b[1])))
     out.append("""Ltac ev :=
   unfold comp1, comp2, comp3, g3_decompactify, g3_compactificationDerivatives, g3_compactify,
     g3_totalMapping, g3_term1, g3_term2, g3_term3, g3_term4, g3_term5;
@@ -283,6 +283,16 @@ def fd5(f, x, h):
     return (-f(x + 2 * h) + 8 * f(x + h) - 8 * f(x - h) + f(x - 2 * h)) / (12 * h)
 
 
+MARGINS = {}
+
+
+def margin(name, value):
+    """largest observed fraction of a tolerance (recorded in the evidence)"""
+    value = float(value)
+    if value == value:
+        MARGINS[name] = max(MARGINS.get(name, 0.0), value)
+
+
 class Once:
     """report each failure class (key) once per run, with the first input that shows it;
     further inputs of the same class are only counted"""
@@ -360,6 +370,7 @@ def check_maps(ctx, once, g, case, label, three):
     # allowance; a Jacobian that is not the derivative disagrees with both.
     allow = 1e-4 * np.abs(Ji) + 4 * np.abs(fd - fd2)
     excess = np.abs(fd - Ji) - allow
+    margin("fd_position |fd-J|/allow", float(np.max(np.abs(fd - Ji) / allow)))
     k = int(np.argmax(excess))
     ctx.count("direct_fd_" + label)
     reliable = np.abs(fd - fd2) <= 1e-4 * np.abs(Ji)
@@ -375,6 +386,7 @@ def check_maps(ctx, once, g, case, label, three):
     # centre and slope at the centre
     zc = float(g.decompactify(np.array(0.0), np.array(0.0), np.array(0.0))[0])
     want = float(g.wallCenter) if three else 0.0
+    margin("centre abs/(1e-12 scale)", abs(zc - want) / (1e-12 * scale))
     if abs(zc - want) > 1e-12 * scale:
         once(ctx, "%s: chi=0 maps to %r, wall centre is %r" % (label, zc, want),
                        dict(kind="maps", three=three, case=case, chi=0.0), px + "centre")
@@ -382,6 +394,7 @@ def check_maps(ctx, once, g, case, label, three):
         j0 = float(g.compactificationDerivatives(np.array(0.0), np.array(0.0),
                                                  np.array(0.0))[0])
         w = g.wallThickness / g.ratioPointsWall
+        margin("slope_centre rel/1e-9", abs(j0 - w) / (1e-9 * w))
         if abs(j0 - w) > 1e-9 * w:
             once(ctx, "%s: slope at the centre %r, L/r = %r" % (label, j0, w),
                            dict(kind="maps", three=three, case=case, chi=0.0),
@@ -414,6 +427,7 @@ def check_maps(ctx, once, g, case, label, three):
         xi = xs[(xs > -0.99) & (xs < 0.99)]
         hh = 2e-2 * (1 - np.abs(xi))
         relm = np.abs(fd5(f, xi, hh) - fj(xi)) / np.abs(fj(xi))
+        margin("fd_momentum rel/1e-4", float(relm.max() / 1e-4))
         if relm.max() > 1e-4:
             k = int(np.argmax(relm))
             once(ctx, "%s: %s Jacobian differs from finite differences at %r"
@@ -558,10 +572,15 @@ def node_failures(g, three):
     if g.spacing == "Spectral":
         want = (-np.cos(np.arange(1, M) * np.pi / M), -np.cos(np.arange(1, N) * np.pi / N),
                 -np.cos(np.arange(0, N - 1) * np.pi / (N - 1)))
+    elif g.spacing != "Uniform":
+        out.append(("spacing", "%r: no node formula is known to the check" % (g.spacing,)))
+        want = (chi, rz, rp)
     else:
         want = (-1 + 2 * np.arange(1, M) / M, -1 + 2 * np.arange(1, N) / N,
                 -1 + 2 * np.arange(0, N - 1) / (N - 1))
     for nm, a, w in zip(("chiValues", "rzValues", "rpValues"), (chi, rz, rp), want):
+        if a.shape == w.shape and a.size:
+            margin("node_formula abs/1.6e-15", float(np.max(np.abs(a - w)) / 1.6e-15))
         if a.shape == w.shape and not np.allclose(a, w, rtol=0, atol=4e-16 * 4):
             out.append((nm, "is not the %s node set" % g.spacing))
     for nm in ("xiValues", "pzValues", "ppValues", "dxidchi", "dpzdrz", "dppdrp"):
@@ -587,6 +606,15 @@ def check_nodes(ctx, once, g, case, label, three):
 
 def doctored_grids_fail(ctx):
     """self-test of check_nodes: grids whose nodes were tampered with must be flagged"""
+    saved = dict(MARGINS)
+    try:
+        _doctored_grids_fail(ctx)
+    finally:
+        MARGINS.clear()
+        MARGINS.update(saved)
+
+
+def _doctored_grids_fail(ctx):
     def doctor(f):
         g = mk_g1(1, 1, 8, 5)
         f(g)
@@ -854,6 +882,16 @@ def exec_op(h, o):
         eom._updateGrid(WallParams(widths=np.array([float(Fraction(x)) for x in o[2]]),
                                    offsets=np.array([float(Fraction(x)) for x in o[3]])),
                         float(Fraction(o[1])))
+    elif kind == "reinit-badspacing":
+        # re-running __init__ with a misspelt spacing keyword; the caller catches the error
+        try:
+            if three:
+                g.__init__(g.M, g.N, *[tonum(x, nt) for x in o[1:]], "spectral")
+            else:
+                g.__init__(g.M, g.N, tonum(o[1], nt), tonum(o[2], nt), "spectral")
+        except Exception as ex:   # noqa: BLE001
+            return "rejected-spacing", ex
+        return "accepted-bad", None
     elif kind == "use":
         h["use_fails"] = use_grid(g, o[1], three)
     elif kind == "bad":
@@ -905,6 +943,13 @@ def judge(h, status, before, label):
     col = Collect()
     for key, what in h.pop("use_fails", []):
         col(None, what, None, key)
+    if status == "rejected-spacing":
+        changed = diff_snap(snapshot(g, three), before)
+        if changed:
+            col(None, "__init__ re-run on a live object and REJECTED for its spacing keyword "
+                "changed %s (scales are stored before the keyword is validated)" % changed,
+                None, KEY_SPACING)
+        return col.items          # the object may be half-updated: nothing else is judged
     if status == "accepted-bad":
         col(None, "a call violating an assertion of _updateParameters was accepted", None,
             "inadmissible-call-accepted")
@@ -944,7 +989,7 @@ def run_history(case, ops=None):
     if fails:
         return 0, fails
     for k, o in enumerate(ops):
-        before = snapshot(h["g"], h["three"]) if o[0] == "bad" else None
+        before = snapshot(h["g"], h["three"]) if o[0] in ("bad", "reinit-badspacing") else None
         try:
             status, _ = exec_op(h, o)
         except Exception as ex:   # noqa: BLE001
@@ -953,6 +998,8 @@ def run_history(case, ops=None):
         fails = judge(h, status, before, "history")
         if fails:
             return k + 1, fails
+        if status == "rejected-spacing":
+            break
     return None
 
 
@@ -1031,8 +1078,12 @@ def rand_history(rng, three):
             ops.append(["eom", v, widths, offs])
             if nf > 1 and rng.random() < 0.6:     # same thickness and tails, centre moves
                 ops.append(["eom", v, widths, [-x for x in offs]])
+    if rng.random() < 0.1:                   # last: a re-run of __init__ with a misspelt keyword
+        ops.append(["reinit-badspacing"] + (rand_g3(rng) if three else
+                                            [dy(rng, 16, 31, -11, 3), dy(rng, 8, 31, -6, 3)]))
     for _ in range(rng.randint(1, 2)):      # code that only reads the grid, somewhere in between
-        ops.insert(rng.randint(0, len(ops)), ["use", rng.choice(sorted(CONSUMERS))])
+        last = len(ops) - (1 if ops and ops[-1][0] == "reinit-badspacing" else 0)
+        ops.insert(rng.randint(0, last), ["use", rng.choice(sorted(CONSUMERS))])
     mfp = dy(rng, 16, 31, -9, 3)
     return dict(three=three, M=M, N=N, spacing=spacing, numtype=numtype, defaults=defaults,
                 init=jp(init), ops=jops(ops), mfp=str(mfp), inc=rng.random() < 0.8)
@@ -1090,6 +1141,29 @@ def check_histories(ctx, once, rng, three, nseq):
                 dict(kind="history", differs=sorted(keys), **small), key)
 
 
+KEY_SPACING = "reinit-rejected-by-spacing-half-updated"
+W_SPACING = dict(three=True, M=8, N=5, spacing="Spectral", init=["5", "5", "1", "1", "1/2", "1/10", "0"],
+                 ops=[["reinit-badspacing", "10", "10", "2", "1", "1/2", "1/10", "3/10"]])
+
+
+def replay_spacing(ctx, once):
+    """clean-tree finding (low severity): __init__ re-run on a live object with an invalid
+    spacing keyword raises AFTER the scales were stored"""
+    for case in (W_SPACING, dict(three=False, M=8, N=5, spacing="Spectral", init=["1", "1"],
+                                 ops=[["reinit-badspacing", "3", "1"]])):
+        res = run_history(case)
+        ctx.count("witness_replay")
+        if res is not None:
+            what = [f[1] for f in res[1] if f[0] == KEY_SPACING]
+            if what:
+                once(ctx, "%s: %s" % ("Grid3Scales" if case["three"] else "Grid", what[0]),
+                     dict(kind="history", **case), KEY_SPACING)
+                continue
+        ctx.log("re-init with an invalid spacing keyword leaves the %s object unchanged "
+                "(the recorded finding %s no longer reproduces)" % (
+                    "Grid3Scales" if case["three"] else "Grid", KEY_SPACING))
+
+
 # the witnesses of the *_refuted theorems of Props/C17.v, replayed on the implementation
 W_COMPACTIFY = dict(params=["2", "2", "1", "1", "1/2", "1/4", "0"], chi=0.4)
 W_STALE = dict(init=["5", "5", "1", "1", "1/2", "1/10", "0"],
@@ -1143,7 +1217,7 @@ def replay_witnesses(ctx, once):
 def certified_stage(ctx, once, rng):
     """model vs implementation: certified interval evaluation (tie X)"""
     files = []
-    nsets = ctx.n(8, 32)
+    nsets = ctx.n(6, 32)
     npts = ctx.n(3, 6)
     for m in range(nsets):
         p = rand_g3(rng, equal=(m % 4 == 0), near_bound=(m % 3 == 1))
@@ -1243,32 +1317,46 @@ def run(ctx):
                    "src/WallGo/manager.py (WallGoManager.buildGrid)",
                    "src/WallGo/*.py (writes to grid objects)"],
             sha=[vlib.sha(src1), vlib.sha(src3)], info=info, facts=finfo))
-    proved = gen_ok and facts_ok and ctx.prove(extra=["GridGen.v"], timeout=600)
-    if gen_ok and not facts_ok:
-        # the theorems are not checked (reported above); the model of the two grid classes is
-        # still needed for the model-vs-code comparison
-        ctx.coqc(os.path.join(ctx.bdir, "GridGen.v"))
+    rng = ctx.rng
+    once = Once()
+    # the generated module is compiled first; the certified evaluation files (which import
+    # only it) are then compiled by a worker thread WHILE Props/C17.v is being checked
+    stage = None
+    if gen_ok:
+        ctx.gate_text(text + ftext, "GridGen.v")
+        ok, _, err = ctx.coqc(os.path.join(ctx.bdir, "GridGen.v"))
+        if not ok:
+            ctx.broken.append("generated:GridGen.v")
+            ctx.log("generated file failed:", vlib.tail(err))
+            gen_ok = False
+    if gen_ok:
+        import threading
+        stage_err = []
+
+        def worker():
+            try:
+                certified_stage(ctx, once, rng)
+            except Exception as ex:   # noqa: BLE001
+                import traceback
+                stage_err.append((ex, traceback.format_exc()))
+        stage = threading.Thread(target=worker)
+        stage.start()
+    proved = gen_ok and facts_ok and ctx.prove(extra=[], timeout=600)
+    if stage is not None:
+        stage.join()
+        for ex, tb in stage_err:
+            ctx.log("certified evaluation stage raised", tb)
+            ctx.broken.append("harness: certified evaluation stage raised %r" % ex)
     ctx.trusted += ["tools/pyrx.py + tools/gen_grid.py (AST translator, fail-closed)",
                     "Lib/GridMapsCache.v: meaning of attribute stores and of calling a "
                     "separable point function on the three compact arrays (component-wise "
                     "map)",
                     "Interval tactic (certified evaluation; Bignums integers)"]
-    rng = ctx.rng
-    once = Once()
-
-    # --- (3) model vs implementation: certified interval evaluation ---------------------
-    if gen_ok:
-        try:
-            certified_stage(ctx, once, rng)
-        except Exception as ex:   # noqa: BLE001
-            import traceback
-            ctx.log("certified evaluation stage raised", traceback.format_exc())
-            ctx.broken.append("harness: certified evaluation stage raised %r" % ex)
-
     # --- (4) the property on the implementation -----------------------------------------
-    BOLTZ["left"] = ctx.n(3, 12)
+    BOLTZ["left"] = ctx.n(2, 12)
     doctored_grids_fail(ctx)
     replay_witnesses(ctx, once)
+    replay_spacing(ctx, once)
     worst_rt = 0.0
     for m in range(ctx.n(150, 1500)):
         p = rand_g3(rng, dyadic=(m % 2 == 0))
@@ -1342,6 +1430,8 @@ def run(ctx):
         ctx.log("consumer %s could not be run (%s)" % (which, why))
         ctx.broken.append("harness: consumer %s could not be imported (%s)" % (which, why))
     once.summary(ctx)
+    ctx.cov["margins"] = {k: round(v, 4) for k, v in sorted(MARGINS.items())}
+    ctx.log("largest observed fractions of the tolerances:", ctx.cov["margins"])
 
     ctx.cov["rule"] = (
         "three-scale grids: thickness dyadic m*2^e over 0.008..250 (bucketed by decade), "
